@@ -28,6 +28,8 @@ TEXT = {
          "builder capacity 1024 in the harness; bounds monitor hook", "rapidcheck PBT, invariant (used <= predicted) + bounds monitor", "5/C12"),
  "C17": ("exploration", "Sub-check (a): category-mutated malformed patterns must be refused by both construction paths; scanning any string stays inside its NUL-terminated block (ASan). (Undeclared grammar symbols need compiled programs and are added by the compiled tier.)",
          "reference classification VALID/MALFORMED/UNSPECIFIED", "rapidcheck PBT, mutation-based negative testing + ASan", "5/C17"),
+ "C18": ("exploration", "Generated grammars over custom terms driven by a scripted custom lexer with generated (index, length) behaviour; the lexer's call log, the functor log and the outcome are compared with a reference tokeniser + LR run.",
+         "same as C01; scripted lexer table is generated per case", "rapidcheck PBT, scripted-lexer call-log invariant + reference LR over delivered terms", "5/C18"),
  "C19": ("exploration", "The finite space of (functor, arity 1..9, position or (container,element) pair, argument category) is enumerated completely in every case, with random tagged contents; identity of forwarded objects and copy/move counters are the oracle.",
          "direct calls of the public functors (as the parser's reductors call them: rvalues) plus lvalue categories", "bounded-exhaustive enumeration of the position space driven by rapidcheck contents", "5/C19"),
  "C13": ("exploration", "Generated grammars mixing '>=' and '>>=' functors; each input is parsed under four context categories and without context; identity, constness, value category, order and visibility of mutations are checked against the reference reduction order.",
